@@ -1137,9 +1137,16 @@ def amin(a, axis=None):
 
 
 
-def cumsum(a, axis=0):
+def cumsum(a, axis=None):
     """ASSUMED np.cumsum along axis 0: c[0] = a[0], c[k] = c[k-1] + a[k]  (also tied to the spec function sumR / sumI)"""
     a = _arr(a)
+    if axis is None:
+        # numpy: without an axis the input is FLATTENED first (the result of an n-d input is 1-d)
+        if a.ndim != 1:
+            a = reshape(a, -1)
+        axis = 0
+    elif axis < 0:
+        axis += a.ndim
     if a.ndim > 2 or axis != 0:
         raise Unsupported('cumsum pattern')
     c = C()
